@@ -13,6 +13,7 @@
  *   m args <sep-hex> [nomem]     mpt_array_message (nomem: the first allocation inside the call fails)
  *   m append <prefix-hex> [nomem:<k>]   mpt_message_append to an array holding the prefix (the k-th allocation inside
  *                                the call fails)
+ *   m sappend <cobs|nl>          mpt_stream_append + end of message on a stream (COBS coding / newline framing): what the peer receives
  *   m dhash                      mpt_dispatch_hash(catch-all handler) on the message: verdict and command hash
  *   m qget <max> <off> <fill-hex> <pos> <take> [novec]   mpt_message_get on a queue (novec: no iovec for a second part);
  *                                the result becomes the message
@@ -25,6 +26,11 @@
 #include "message.h"
 #include "event.h"
 #include <inttypes.h>
+#include <sys/socket.h>
+#include <unistd.h>
+#include "convert.h"
+#include "connection.h"
+#include "stream.h"
 
 #define MAXF 64
 static struct iovec vec[MAXF + 1];
@@ -294,6 +300,52 @@ int main(void)
 			put_array(&arr);
 			tail(code);
 			mpt_array_clone(&arr, 0);
+		}
+		else if (!strcmp(op, "sappend") && drv_nw == 3 && (!strcmp(drv_w[2], "cobs") || !strcmp(drv_w[2], "nl"))) {
+			/* mpt_stream_append of the fragment list to a stream on a socket (COBS encoder, or no encoder and
+			 * UNIX newline framing), end of message, flush; what arrives at the other end is compared */
+			int sv[2], cobs = drv_w[2][0] == 'c';
+			if (socketpair(AF_UNIX, SOCK_STREAM, 0, sv) < 0) { puts("R nosocket"); continue; }
+			MPT_STRUCT(socket) sock; sock._id = sv[0];
+			MPT_STRUCT(stream) st = MPT_STREAM_INIT;
+			if (mpt_stream_dopen(&st, &sock, MPT_STREAMFLAG(RdWr) | MPT_STREAMFLAG(Buffer)) < 0) { close(sv[0]); close(sv[1]); puts("R nostream"); continue; }
+			if (cobs) st._wd._enc = mpt_message_encoder(MPT_ENUM(EncodingCobs));
+			else st._info._fd |= ((uintptr_t) MPT_ENUM(NewlineUnix)) << 14;
+			before();
+			ssize_t r = mpt_stream_append(&st, &msg);
+			ssize_t e = mpt_stream_push(&st, 0, 0);
+			mpt_stream_flush(&st);
+			static uint8_t rx[1 << 16]; size_t rxlen = 0; ssize_t n;
+			while (rxlen < sizeof(rx) && (n = recv(sv[1], rx + rxlen, sizeof(rx) - rxlen, MSG_DONTWAIT)) > 0) rxlen += n;
+			printf("R ret=%zd wire=", r);
+			/* split at the delimiter (0 for COBS, newline otherwise) and decode */
+			size_t start = 0; int any = 0; uint8_t delim = cobs ? 0 : 0x0a;
+			for (size_t i = 0; i < rxlen; i++) {
+				if (rx[i] != delim) continue;
+				static uint8_t dec[1 << 16]; size_t d = 0, p = start; int bad = 0;
+				if (!cobs) { memcpy(dec, rx + start, i - start); d = i - start; }
+				else {
+					bad = (i == start);
+					while (p < i && !bad) {
+						uint8_t code = rx[p++];
+						if (p + code - 1 > i) { bad = 1; break; }
+						for (uint8_t k = 1; k < code; k++) dec[d++] = rx[p++];
+						if (code != 0xff && p < i) dec[d++] = 0;
+					}
+				}
+				if (any++) fputc(',', stdout);
+				printf(bad ? "bad[" : "msg[");
+				if (bad) drv_puthex(stdout, rx + start, i - start + 1); else drv_puthex(stdout, dec, d);
+				fputc(']', stdout);
+				start = i + 1;
+			}
+			if (start < rxlen) { if (any++) fputc(',', stdout); printf("partial["); drv_puthex(stdout, rx + start, rxlen - start); fputc(']', stdout); }
+			if (!any) fputc('-', stdout);
+			char code[48];
+			snprintf(code, sizeof(code), "%zd", e);
+			tail(code);
+			mpt_stream_close(&st);
+			close(sv[1]);
 		}
 		else if (!strcmp(op, "dhash") && drv_nw == 2) {
 			/* mpt_dispatch_hash with a catch-all handler: the command word (first argument after the 2-byte type
